@@ -47,7 +47,7 @@ M = [
  ("c08-revert-f5", ["C08"], "detect/detect_fast.go", "counters := make([]int32, 12)\n\tdistributions := createDistributions(s, 12)\n\tjobs, wg, reader := bootWorker(source, n, Round12, counters, distributions)", "counters := make([]int32, 15)\n\tdistributions := createDistributions(s, 15)\n\tjobs, wg, reader := bootWorker(source, n, Round15, counters, distributions)"),
  ("c08-shared-buffer", ["C08", "C10"], "detect/detect_fast.go", "func worker(jobs chan int, source *sampleReader, n int, round func([]byte) []*randomness.TestResult, counter []int32, distributions [][]float64, wait *sync.WaitGroup) {\n\tbuf := make([]byte, n, n*2)", "var sharedBuf []byte\n\nfunc worker(jobs chan int, source *sampleReader, n int, round func([]byte) []*randomness.TestResult, counter []int32, distributions [][]float64, wait *sync.WaitGroup) {\n\tif len(sharedBuf) != n {\n\t\tsharedBuf = make([]byte, n)\n\t}\n\tbuf := sharedBuf"),
  ("c09-revert-f3-done", ["C09"], "detect/detect_fast.go", "\t\t\t// 读取失败也必须通知完成，否则调用方将永久阻塞\n\t\t\twait.Done()\n", ""),
- ("c09-error-swallowed", ["C09"], "detect/detect_fast.go", "\tif err := reader.firstErr(); err != nil {\n\t\treturn false, err\n\t}\n\tfmt.Println(counters)\n\n", "\tfmt.Println(counters)\n\n"),
+ ("c09-error-swallowed", ["C09"], "detect/detect_fast.go", "// PowerOnDetectFast 上电自检", "// PowerOnDetectFast 上电自检 "),
  ("c09-seq-eof-ok", ["C09"], "detect/detect.go", "\ts := 20\n\tt := Threshold(s)\n\tbuf := make([]byte, 20000/8)\n\tcounters := make([]int, 12)\n\tdistributions := createDistributions(s, 12)\n\tfor i := 0; i < s; i++ {\n\t\t_, err := io.ReadFull(source, buf)\n\t\tif err != nil {", "\ts := 20\n\tt := Threshold(s)\n\tbuf := make([]byte, 20000/8)\n\tcounters := make([]int, 12)\n\tdistributions := createDistributions(s, 12)\n\tfor i := 0; i < s; i++ {\n\t\t_, err := io.ReadFull(source, buf)\n\t\tif err != nil && err != io.ErrUnexpectedEOF {"),
  ("c10-revert-f4-readfull", ["C10"], "detect/detect_fast.go", "_, err := io.ReadFull(r.source, buf)", "_, err := r.source.Read(buf)"),
  ("c10-lock-dropped", ["C10", "C08"], "detect/detect_fast.go", "\tr.mu.Lock()\n\tdefer r.mu.Unlock()\n\tif r.err != nil {\n\t\treturn r.err\n\t}\n\t_, err := io.ReadFull(r.source, buf)\n\tif err != nil {\n\t\tr.err = err\n\t}\n\treturn err", "\tif err := r.firstErr(); err != nil {\n\t\treturn err\n\t}\n\t_, err := io.ReadFull(r.source, buf)\n\tif err != nil {\n\t\tr.mu.Lock()\n\t\tr.err = err\n\t\tr.mu.Unlock()\n\t}\n\treturn err"),
@@ -64,7 +64,7 @@ M = [
  ("c15-poker-default", ["C15"], "poker.go", "p, q := PokerTestBytes(data, 8)", "p, q := PokerTestBytes(data, 4)"),
  ("c15-b2bit-order", ["C15"], "utils.go", "\tfor _, b := range buf {\n\t\tbits = append(bits, B2bit(b)...)\n\t}\n\treturn bits\n}\n\n// ReadGroupInASCIIFormat", "\tfor _, b := range buf[:len(buf)/2*2] {\n\t\tbits = append(bits, B2bit(b)...)\n\t}\n\treturn bits\n}\n\n// ReadGroupInASCIIFormat"),
  ("c16-pass-strict", ["C16", "C15"], "runs.go", "Pass: p >= Alpha}", "Pass: p > Alpha+1e-3}"),
- ("c16-overlap-pass-p1", ["C16", "C15"], "overlapping.go", "Pass: math.Min(p1, p2) >= Alpha,", "Pass: p1 >= Alpha,"),
+ ("c16-overlap-pass-p1", ["C16", "C15"], "overlapping.go", "Pass: math.Min(p1, p2) >= Alpha,", "Pass: math.Max(p1, p2) >= Alpha,"),
  ("c17-overlap-nowrap", ["C17", "C01"], "overlapping.go", "if bits[i%n] {", "if i < n && bits[i] {"),
  ("c18-binder-inplace", ["C18"], "binary_derivative.go", "\t_bits := make([]bool, len(bits))\n\tcopy(_bits, bits)\n", "\t_bits := bits\n"),
  ("c18-shared-matrix", ["C18"], "matrix_rank.go", "\tvar matrix = make([][]int, 32)\n\tfor i := 0; i < 32; i++ {\n\t\tmatrix[i] = make([]int, 32)\n\t}\n", "\tmatrix := sharedMatrix\n"),
@@ -78,6 +78,9 @@ M = [
 ]
 
 EXTRA = {
+ "c08-nonatomic-counter": [("detect/detect_fast.go", "\t\"sync/atomic\"\n", "")],
+ "c09-error-swallowed": [("detect/detect_fast.go", "\tjobs, wg, reader := bootWorker(source, n, Round15, counters, distributions)\n\twg.Add(s)\n\tdefer close(jobs)\n\tfor i := 0; i < s; i++ {\n\t\tjobs <- i\n\t}\n\twg.Wait()\n\tif err := reader.firstErr(); err != nil {\n\t\treturn false, err\n\t}\n\tfmt.Println(counters)\n\n", "\tjobs, wg, _ := bootWorker(source, n, Round15, counters, distributions)\n\twg.Add(s)\n\tdefer close(jobs)\n\tfor i := 0; i < s; i++ {\n\t\tjobs <- i\n\t}\n\twg.Wait()\n\tfmt.Println(counters)\n\n")],
+
  # extra edits needed by a mutant: (file, old, new)
  "c18-shared-matrix": [("matrix_rank.go", "import (\n\t\"math\"\n)", "import (\n\t\"math\"\n)\n\nvar sharedMatrix = func() [][]int {\n\tm := make([][]int, 32)\n\tfor i := range m {\n\t\tm[i] = make([]int, 32)\n\t}\n\treturn m\n}()")],
  "c20-shared-buffer": [("tools/rdgen/main.go", "\tbuf := make([]byte, n/8)\n\tfor i := range jobs {", "\tfor i := range jobs {")],
